@@ -58,4 +58,11 @@ example : guarded (("single/eof.py:EOF._fit_algorithm:.values", "always") :: Gen
 example : forceLog [("x:.values", "always")] ⟨false, false, false, true⟩ = ["x:.values"] := by decide
 example : forceLog Gen.forcingSites ⟨true, true, false, true⟩ ≠ [] := by decide
 
+/-- source obligation: every model stores its input data excluded from `compute()` (`allow_compute=False`), rotators included -/
+theorem src_input_data_never_computed :
+    Gen.inputDataRegistrations.all (·.2) = true ∧
+    Gen.inputDataRegistrations.map (·.1) = ["cross/cpcca.py:input_data1", "cross/cpcca.py:input_data2", "cross/cpcca_rotator.py:input_data1",
+      "cross/cpcca_rotator.py:input_data2", "single/eeof.py:input_data", "single/eof.py:input_data", "single/eof_rotator.py:input_data",
+      "single/opa.py:input_data", "single/pop.py:input_data", "single/sparse_pca.py:input_data"] := by decide
+
 end C12
